@@ -155,7 +155,17 @@ func compare(what string, c Case, got poly.Sequence) error {
 func check(c Case) error {
 	if c.Kind == "independent" {
 		text := write(c)
-		return compare(fmt.Sprintf("Parse(independent writer, wrap %d, %d directives, terminator %v, final newline %v)", c.Wrap, len(c.Directives), c.Terminator, c.FinalNewline), c, gff.Parse(text))
+		what := fmt.Sprintf("independent writer, wrap %d, %d directives, terminator %v, final newline %v", c.Wrap, len(c.Directives), c.Terminator, c.FinalNewline)
+		if err := compare("Parse("+what+")", c, gff.Parse(text)); err != nil {
+			return err
+		}
+		// the same text through the file entry point
+		p := filepath.Join(vk.WorkDir(), "independent.gff")
+		defer os.Remove(p)
+		if err := os.WriteFile(p, text, 0o644); err != nil {
+			return vk.Harnessf("cannot write %s: %v", p, err)
+		}
+		return compare("Read(file laid out by the "+what+")", c, gff.Read(p))
 	}
 	x := build(c)
 	text := gff.Build(x)
